@@ -47,7 +47,7 @@ deriving Repr
 
 /-- `(*Digest).Scan`: the receiver afterwards and whether an error is returned. -/
 def scan (d : DVal) : ScanArg → DVal × Bool
-  | .null => (d, false)
+  | .null => ({}, false)   -- NULL is the zero Digest, whatever the receiver held (/repo 62a5fcf7)
   | .str t => ((unmarshal d t).1, !(unmarshal d t).2)
   | .other => (d, true)
 
